@@ -102,6 +102,7 @@ pub fn ref_plan(op: &Op, env: &Option<String>) -> Plan {
             atomic_focus: 0,
             spin_guard: 0,
             log_level: None,
+            fresh_exec: false,
     }
 }
 
@@ -365,7 +366,9 @@ pub fn check_outcome(plan: &Plan, out: &Outcome, refs: &mut RefTable) -> CheckRe
         }
     }
     // stratum A: call 0 *is* the reference context (pristine process, base 0, canonical op)
-    if plan.stratum == "A" && !plan.threads.is_empty() && !plan.threads[0].is_empty() {
+    // (not when the execution ran in a fresh address space: then the reference is the usual
+    // forked child, whose layout differs from the execution's)
+    if plan.stratum == "A" && !plan.fresh_exec && !plan.threads.is_empty() && !plan.threads[0].is_empty() {
         let c0 = &plan.threads[0][0];
         if c0.hash_base == Some(0) && c0.panic_at.is_none() && !c0.session && canon_op(&c0.op) == c0.op {
             refs.seed(&c0.op, &plan.env_before, &out.calls[0][0].obs);
